@@ -233,6 +233,31 @@ def run(ctx) -> None:
                                                                             "values": lvals_, "valid_span": [lo, hi], "start_inclusive": si,
                                                                             "end_inclusive": ei, "expected": want, "observed": got})
 
+    # ---- an explicit dtype argument decides the type the comparison is made in, also for data that carry a dtype of their own
+    if ctx.shard == 0:
+        ivals = list(range(-3, 5))
+        for lo, hi in ((0.5, 2.5), (-1.5, 0.5), (1.5, 1.5)):
+            for cname, arr_ in (("int64", np.array(ivals, dtype=np.int64)), ("int8", np.array(ivals, dtype=np.int8)),
+                                ("masked-int32", np.ma.MaskedArray(np.array(ivals, dtype=np.int32), mask=[k == 1 for k in ivals])),
+                                ("int-series", pd.Series(np.array(ivals, dtype=np.int64)))):
+                lv = [None if (cname == "masked-int32" and k == 1) else float(k) for k in ivals]
+                for si, ei in ((True, False), (True, True), (False, False)):
+                    kw = {"inp": arr_, "valid_span": (lo, hi), "dtype": np.float64, "start_inclusive": si, "end_inclusive": ei}
+                    client.expect(ctx, "C03", "axds.valid_range_test", kw, lambda: models.valid_range(lv, lo, hi, si, ei),
+                                  logical={"values": lv, "valid_span": [lo, hi], "carrier": cname + " with dtype=float64", "si": si, "ei": ei}, hist="valid_range")
+                    ctx.count("valid_range.calls")
+                    ctx.count("valid_range.explicit_dtype_on_typed_data_calls")
+                    ctx.case(f"vr|explicit-dtype|{cname}|{lo}|{si}{ei}")
+        t0_ = np.datetime64("2021-03-01T00:00:00", "s")
+        tarr_ = np.array([t0_ + np.timedelta64(k, "s") for k in range(5)], dtype="datetime64[s]")
+        for a_, b_ in ((0.5, 2.5), (1.5, 3.5)):
+            sp_ = (t0_.astype("datetime64[ms]") + np.timedelta64(int(a_ * 1000), "ms"), t0_.astype("datetime64[ms]") + np.timedelta64(int(b_ * 1000), "ms"))
+            kw = {"inp": tarr_, "valid_span": sp_, "dtype": np.dtype("datetime64[ms]")}
+            client.expect(ctx, "C03", "axds.valid_range_test", kw, lambda: models.valid_range([0, 1, 2, 3, 4], a_, b_, True, False),
+                          logical={"seconds": [0, 1, 2, 3, 4], "valid_span_s": [a_, b_], "carrier": "datetime64[s] data with dtype=datetime64[ms]"}, hist="valid_range")
+            ctx.count("valid_range.calls")
+            ctx.case(f"vr|explicit-dtype|dt64|{a_}")
+
     # malformed spans are rejected (isfixedlength)
     if ctx.shard == 0:
         for bad in ([1], [1, 2, 3], (), "ab"):
